@@ -137,6 +137,9 @@ func exec(h H, rec *pbt.Rec) error {
 		} else if c.Near > 0 {
 			k := (c.Near - 1) % 256
 			asked[k/8] ^= 1 << uint(7-k%8)
+			if c.Near%5 != 0 { // the adversary's best play: the answer names the digest that was asked
+				mr.KeyDigest = append([]byte{}, asked[:]...)
+			}
 			rec.Class("ask:near-miss-of-the-base-event", 1)
 		}
 		// the client needs authentic snapshots for the versions the answer names
